@@ -179,7 +179,21 @@ def impl_eval_inner(case):
         finally:
             os.unlink(path)
     else:
-        back, exc = read_all(mciipm.VbsReader(io.BytesIO(data), blocked=blocked))
+        # the file is read while ANOTHER reader over another file (the other format, other records) exists: created
+        # before this one at even record counts, after it at odd ones, and read to its end afterwards
+        other_recs = [b'a', b'b', b'c']            # (one byte each: within any configured maximum)
+        other_data = mciipm.vbs_list_to_bytes(other_recs, blocked=not blocked)
+        if len(recs) % 2 == 0:
+            other = mciipm.VbsReader(io.BytesIO(other_data), blocked=not blocked)
+            mine = mciipm.VbsReader(io.BytesIO(data), blocked=blocked)
+        else:
+            mine = mciipm.VbsReader(io.BytesIO(data), blocked=blocked)
+            other = mciipm.VbsReader(io.BytesIO(other_data), blocked=not blocked)
+        back, exc = read_all(mine)
+        oback, oexc = read_all(other)
+        if exc is None and back == recs and (oback != other_recs or oexc is not None):
+            return {'obs': 'other-reader-disturbed', 'violation': 'a second reader over another file, alive at the same time, '
+                    f'returned {len(oback)} of its 3 records ({render_end(oexc)})', 'tags': ['two-readers']}
     why = None
     ref = ref_vbs(recs)
     if not blocked and data != ref:
